@@ -264,38 +264,55 @@ PROPS = {
     'no-removal': ('C01',),
     'ghost': ('C01',),
     'removal-safe': ('C01',),
-    'exact': ('C02',),
-    'groups': ('C02',),
+    'exact': ('C02', 'C19',),
+    'groups': ('C02', 'C19',),
     'inv': ('C02', 'C06'),
     'slot-released': ('C06',),
     'slot-formed': ('C06',),
-    'add-present-unchanged': ('C04',),
-    'add-absent-blank': ('C04', 'C03'),
+    'add-present-unchanged': ('C04', 'C19',),
+    'add-absent-blank': ('C04', 'C03', 'C19'),
     'add-frame': ('C04',),
-    'frame': ('C03', 'C02', 'C01'),
-    'result': ('C03',),
-    'persistence': ('C03', 'C02'),
-    'edges': ('C03',),
+    'frame': ('C03', 'C02', 'C01', 'C19'),
+    'result': ('C03', 'C19',),
+    'persistence': ('C03', 'C02', 'C19',),
+    'edges': ('C03', 'C19',),
     'fresh': ('C05',),
+    'deterministic': ('C19',),
     'pos': ('C05',),
-    'reader-result': ('C03',),
-    'keys': ('C01',),
+    'reader-result': ('C03', 'C19',),
+    'keys': ('C01', 'C19',),
     'reader-pure': ('C01', 'C03'),
-    'clone-equal': ('C10',),
+    'clone-equal': ('C10', 'C19',),
     'clone-independent': ('C10',),
     'clone-pure': ('C10', 'C01'),
 }
 
 
 def props_of(name):
+    if name.startswith('invsafe:'):
+        return ('C01',)
+    if name.startswith('inv:') and not name.startswith('inv:I4'):
+        return ('C02', 'C06', 'C01')
     ps = PROPS[name.split(':')[0]]
     if name.startswith(('frame:cnt', 'frame:items', 'frame:ctr')):
         ps = ps + ('C06',)
+    if name.startswith(('frame:pos', 'add-frame:pos', 'clone-equal:pos')):
+        ps = ps + ('C05',)
     return ps
 
 
 def inv_post(c, post):
-    return [('inv:' + n, f) for n, f in inv(c.w, post)]
+    """Inv on the post-state, clause by clause.  Besides the full Inv (C02, C06) the weaker form that
+    GC safety needs (C01): structure of the member lists as is, but counter >= recount -- a counter
+    that is too high only delays a collection, one that is too low collects a vertex whose datum
+    was never read."""
+    out = []
+    for n, f in inv(c.w, post):
+        out.append(('inv:' + n, f))
+    for n, f in inv(c.w, post, counters='ge'):
+        if n.startswith('I4'):
+            out.append(('invsafe:' + n, f))
+    return out
 
 
 # ====================================================================== add
@@ -356,7 +373,9 @@ def ob_next_id(env, N, cap):
         post = o.st
         r = to_bv(o.value, 64)
         pos1 = to_bv(w.pos(post), 64)
+        first = z3.And(*[z3.Implies(r == i, z3.And(*[z3.Not(z3.And(T[j] == 0, z3.ULE(pos, j))) for j in range(i)])) for i in range(cap)])
         cl = [('fresh', z3.And(z3.ULT(r, cap), c.at(T, r) == 0, z3.UGE(r, pos))),
+              ('deterministic:first-absent-id', first),
               ('pos', z3.And(z3.UGT(pos1, r), z3.UGE(pos1, pos), z3.ULE(pos1, cap)))]
         fr, nd = c.frame(post, lambda key: key[0] == 'pos')
         cl += fr
@@ -882,7 +901,7 @@ def ob_clone(env, N, cap):
             for k in range(NSLOT if b >= 2 else 1):
                 it0 = c.ITEM(c.pre, b, k)
                 eqs.append(z3.Implies(z3.UGT(CNT[b], k), to_bv(cw.item(post, b, k), 64) == it0))
-        eqs.append(to_bv(cw.pos(post), 64) == to_bv(w.pos(c.pre), 64))
+        cl.append(('clone-equal:pos', to_bv(cw.pos(post), 64) == to_bv(w.pos(c.pre), 64)))
         cl.append(('clone-equal:groups', z3.And(*eqs)))
         # data: same bytes, buffers of its own
         deq = []
